@@ -99,6 +99,14 @@ class _Exprs(ast.NodeTransformer):
             return ast.copy_location(ast.Constant(value=node.left.value ** node.right.value), node)
         return node
 
+    def visit_UnaryOp(self, node: ast.UnaryOp) -> ast.AST:
+        self.generic_visit(node)
+        # not (x % k)  ->  x % k == 0   (numbers)
+        if isinstance(node.op, ast.Not) and isinstance(node.operand, ast.BinOp) and isinstance(node.operand.op, ast.Mod) and isinstance(node.operand.right, ast.Constant) \
+                and type(node.operand.right.value) is int and node.operand.right.value > 0:
+            return ast.copy_location(ast.Compare(left=node.operand, ops=[ast.Eq()], comparators=[ast.copy_location(ast.Constant(value=0), node)]), node)
+        return node
+
     def visit_IfExp(self, node: ast.IfExp) -> ast.AST:
         self.generic_visit(node)
         # d[k] if k in d else x  ->  d.get(k) / d.get(k, x)   (pure d, k, x; the mapping protocol of dict)
